@@ -377,6 +377,90 @@ fn render(rng: &mut Rng, f: &[Ent]) -> Vec<u8> {
     out
 }
 
+/// Inputs whose size is the attack: names of 300 ... 70000 octets (in several
+/// label shapes, as owner, in record data, after $ORIGIN, relative and
+/// absolute), huge character strings, hex / base64 blobs, integers with 100
+/// digits, 10^5 nested parentheses, a 1 MiB line.
+fn hostile_inputs(rng: &mut Rng) -> Vec<(String, Vec<u8>)> {
+    let mut v: Vec<(String, Vec<u8>)> = vec![];
+    let rep = |unit: &[u8], total: usize| -> Vec<u8> {
+        let mut o = Vec::with_capacity(total + unit.len());
+        while o.len() < total { o.extend_from_slice(unit); }
+        o
+    };
+    for total in [300usize, 4096, 65535, 65536, 70000, 140000] {
+        for unit in [&b"aaa."[..], b"a.", b"\\097\\.b.", &[b'x'; 64][..]] {
+            let mut unit = unit.to_vec();
+            if unit.len() == 64 { unit[63] = b'.'; }
+            let abs = rep(&unit, total);
+            let mut rel = abs.clone();
+            rel.pop();
+            for (shape, name) in [("abs", &abs), ("rel", &rel)] {
+                let tag = format!("name{}-{}-{}", total, unit.len(), shape);
+                v.push((format!("{}-owner", tag), [&name[..], b" IN TXT t\n"].concat()));
+                v.push((format!("{}-rdata", tag), [b"a IN NS ", &name[..], b"\n"].concat()));
+                v.push((format!("{}-mx", tag), [b"a IN MX 10 ", &name[..], b"\n"].concat()));
+                v.push((format!("{}-origin", tag), [b"$ORIGIN ", &name[..], b"\n@ IN TXT t\n"].concat()));
+                v.push((format!("{}-include", tag), [b"$INCLUDE f ", &name[..], b"\n"].concat()));
+                v.push((format!("{}-quoted", tag), [b"a IN CNAME \"", &name[..], b"\"\n"].concat()));
+            }
+        }
+    }
+    for total in [300usize, 65535, 65536, 1 << 20] {
+        let xs = rep(b"x", total);
+        v.push((format!("txt-plain-{}", total), [b"a IN TXT ", &xs[..], b"\n"].concat()));
+        v.push((format!("txt-quoted-{}", total), [b"a IN TXT \"", &xs[..], b"\"\n"].concat()));
+        v.push((format!("txt-escaped-{}", total), [b"a IN TXT ", &rep(b"\\120", total)[..], b"\n"].concat()));
+        v.push((format!("txt-many-{}", total), [b"a IN TXT ", &rep(b"x ", total)[..], b"\n"].concat()));
+        v.push((format!("hinfo-{}", total), [b"a IN HINFO ", &xs[..], b" y\n"].concat()));
+        v.push((format!("owner-label-{}", total), [&xs[..], b" IN TXT t\n"].concat()));
+        let hex = rep(b"0f", total);
+        v.push((format!("generic-hex-{}", total), [b"a IN TYPE65280 \\# 5 ", &hex[..], b"\n"].concat()));
+        v.push((format!("generic-hex-tokens-{}", total), [b"a IN TYPE65280 \\# 5 ", &rep(b"0f ", total)[..], b"\n"].concat()));
+        v.push((format!("tlsa-hex-{}", total), [b"a IN TLSA 3 1 1 ", &hex[..], b"\n"].concat()));
+        let b64 = rep(b"QUJD", total);
+        v.push((format!("dnskey-b64-{}", total), [b"a IN DNSKEY 257 3 13 ", &b64[..], b"\n"].concat()));
+        v.push((format!("openpgp-b64-{}", total), [b"a IN OPENPGPKEY ", &rep(b"QUJD ", total)[..], b"\n"].concat()));
+        v.push((format!("nsec3-long-hash-{}", total), [b"a IN NSEC3 1 0 1 - ", &rep(b"VVVVVVVV", total)[..], b" A\n"].concat()));
+        v.push((format!("nsec3-long-salt-{}", total), [b"a IN NSEC3 1 0 1 ", &rep(b"ab", total.max(512))[..], b" VVVVVVVV A\n"].concat()));
+        v.push((format!("nsec3-long-param-salt-{}", total), [b"a IN NSEC3PARAM 1 0 1 ", &rep(b"ab", total.max(512))[..], b"\n"].concat()));
+        v.push((format!("comment-{}", total), [b"a IN TXT t ;", &xs[..], b"\n"].concat()));
+        v.push((format!("spaces-{}", total), [b"a IN TXT t", &rep(b" \t\r", total)[..], b"\n"].concat()));
+        v.push((format!("line-no-lf-{}", total), [b"a IN TXT ", &xs[..]].concat()));
+        v.push((format!("quote-open-{}", total), [b"a IN TXT \"", &xs[..]].concat()));
+        v.push((format!("type-token-{}", total), [b"a IN ", &xs[..], b" t\n"].concat()));
+        v.push((format!("control-{}", total), [b"$", &xs[..], b" t\n"].concat()));
+    }
+    let digits = rep(b"9", 100);
+    for pre in [&b"$TTL "[..], b"a ", b"a IN MX ", b"a IN TYPE1 \\# ", b"a IN TYPE", b"a CLASS", b"a IN SOA a. b. "] {
+        v.push((format!("int100-{}", String::from_utf8_lossy(pre).trim()), [pre, &digits[..], b" x.\n"].concat()));
+        v.push((format!("int100z-{}", String::from_utf8_lossy(pre).trim()), [pre, &rep(b"0", 100)[..], b"7 x.\n"].concat()));
+    }
+    // just past the limits of the one-octet length fields
+    v.push(("nsec3-long-hash-min".into(), [&b"a IN NSEC3 1 0 1 - "[..], &rep(b"V", 416)[..], b" A\n"].concat()));
+    v.push(("nsec3-hash-255".into(), [&b"a IN NSEC3 1 0 1 - "[..], &rep(b"V", 408)[..], b" A\n"].concat()));
+    v.push(("nsec3-salt-255".into(), [&b"a IN NSEC3 1 0 1 "[..], &rep(b"ab", 510)[..], b" VVVVVVVV A\n"].concat()));
+    for depth in [1000usize, 100_000] {
+        let open = rep(b"(", depth);
+        let close = rep(b")", depth);
+        v.push((format!("parens-balanced-{}", depth), [b"a IN TXT ", &open[..], b"t", &close[..], b"\n"].concat()));
+        v.push((format!("parens-open-{}", depth), [b"a IN TXT ", &open[..], b"t\n"].concat()));
+        v.push((format!("parens-close-{}", depth), [b"a IN TXT t", &close[..], b"\n"].concat()));
+        v.push((format!("parens-lines-{}", depth), [b"a IN TXT ", &rep(b"(\n", depth * 2)[..], b"t", &close[..], b"\n"].concat()));
+    }
+    v.push(("blank-lines".into(), rep(b"\n", 1 << 20)));
+    v.push(("many-records".into(), rep(b"a IN TXT t\n", 1 << 18)));
+    // a few seeded variations: a random prefix of a long name run spliced into a token soup
+    for i in 0..8 {
+        let n = 60000 + rng.below(20000) as usize;
+        let mut d = token_soup(rng, 3);
+        d.extend_from_slice(&rep(*rng.pick(&[&b"ab."[..], b"a.b\\.c.", b"\\000."]), n));
+        d.extend_from_slice(b" IN NS x.\n");
+        v.push((format!("soup-long-name-{}", i), d));
+    }
+    v
+}
+
 fn main() {
     quiet_panics();
     let args: Vec<String> = std::env::args().collect();
@@ -418,6 +502,21 @@ fn main() {
                             "class": class.map(|c| c as i64).unwrap_or(-1), "res": res}));
         }
     }
+    // (c) hostile sizes: very long single tokens and lines.  Only the class
+    // of the outcome is logged (ok / err / panic); a panic or a hang is a
+    // violation of totality.
+    let mut hostile = 0u64;
+    for (kind, data) in hostile_inputs(&mut rng) {
+        zf::tick(&format!("hostile {} ({} octets)", kind, data.len()));
+        let res = outcome(&data, Some(ORIGIN), Some(1));
+        let class = if res.get("panic").is_some() { "panic" } else if res["err"] == json!(true) { "err" } else { "ok" };
+        if class == "panic" { panics += 1; }
+        hostile += 1;
+        // guard of D_nsec3_scan_unchecked_len: an NSEC3 salt or owner hash of more
+        // than 255 octets (the generator knows which inputs carry one)
+        let dev = if kind.starts_with("nsec3-long") { "D_nsec3_scan_unchecked_len" } else { "" };
+        tw.event(json!({"ev": "hostile", "kind": kind, "len": data.len(), "res": class, "dev": dev}));
+    }
     let mut meta_equal = 0u64;
     for _ in 0..n_meta {
         let f = rand_file(&mut rng);
@@ -433,6 +532,6 @@ fn main() {
     }
     let n = tw.finish();
     println!("RECORDED {}", json!({"events": n, "inputs": n_total, "ok": oks, "err": errs, "panics": panics,
-        "logged_reads": logged, "long_inputs": long_inputs, "meta": n_meta, "meta_equal": meta_equal,
+        "logged_reads": logged, "long_inputs": long_inputs, "meta": n_meta, "meta_equal": meta_equal, "hostile": hostile,
         "corpus_files": files.len()}));
 }
